@@ -543,7 +543,9 @@ def r14(ck, F):
         if not ck.anchor("C13.R14", "MakeWriterExt::" + m, b):
             continue
         rets = [p.ret for p in PathEval(b).run() if p.end == "return"]
-        ok = len(rets) == 1 and rets[0][0] == "call" and rets[0][1] == W + ty + "::new" and [show(a) for a in rets[0][2]] == ["arg1", "arg2"]
+        # (through the combinator's constructor, or by writing the struct literal in place: fields in declaration order)
+        ok = len(rets) == 1 and ((rets[0][0] == "call" and rets[0][1] == W + ty + "::new" and [show(a) for a in rets[0][2]] == ["arg1", "arg2"]) or
+                                 (rets[0][0] == "agg" and rets[0][1] == W + ty.split("::")[0] and [show(a) for a in rets[0][3]] == ["arg1", "arg2"]))
         if ok:
             ck.ok("C13.R14", key, fn=b.path)
         else:
